@@ -72,7 +72,7 @@ NURIMISAKI_COMBINATOR = Grid(OneOf(Dict([0], ["."]), Spaces(-1, "g"), HexInt()))
 
 def serialize_nurimisaki(problem):
     height = len(problem)
-    width = len(problem[0])
+    width = len(problem[0]) if height > 0 else 0
     return serialize_problem_as_url(NURIMISAKI_COMBINATOR, "nurimisaki", height, width, problem)
 
 
